@@ -665,6 +665,7 @@ func TestVerifC09(t *testing.T) {
 		if strings.Contains(string(b), "pipe-script ") {
 			c09PipeMessages(out)
 		}
+		c09Zmq(t, out, vlib.NewRand("C09zmq")) // runs only when the replay file names a zmq- scenario
 		return
 	}
 	// A schedule that deadlocks costs the 10 s of the step watchdog and leaves its goroutines behind; the
@@ -753,6 +754,7 @@ func TestVerifC09(t *testing.T) {
 	c09StartupCancel(out)
 	c09EnvResponses(out)
 	c09PipeMessages(out)
+	c09Zmq(t, out, vlib.NewRand("C09zmq"))
 }
 
 // runC09Random runs one uniformly random schedule (chosen step by step among runnable threads).
